@@ -143,3 +143,26 @@ Definition in_domain (o : opn) (args : list val) : bool :=
   | OLognot => match args with [VFix z] => in64 z | [VBig z] => negb (in64 (Z.lnot z)) | _ => false end
   | ODiv | OGcd | OLcm => false     (* covered by correspondence and by S as a judge, no theorem *)
   end.
+
+(* ---- a second, wider domain for the rounding divisions: operands of any representation the
+   implementation can hold (a bignum object may hold a small value, a ratio any positive denominator),
+   at least one of them a bignum or a ratio, divisor not zero, and no bignum beyond 64 bits paired with
+   a ratio.  There the model is proved to return the exact VALUES (ProofsRound.v); the representation
+   of the results (always bignum / ratio objects) is not the canonical one. ---- *)
+Definition wf (v : val) : bool :=
+  match v with VFix z => in64 z | VBig _ => true | VRat _ d => 0 <? d | VInexact => false end.
+Definition kind_exact (k : kind) : bool := match k with KBig | KRat => true | _ => false end.
+Definition round_value_domain (args : list val) : bool :=
+  forallb wf args &&
+  match args with
+  | [n; d] => negb (as_num d =? 0) && kind_exact (norm_kind n d)
+  | [n] => kind_exact (norm_kind n (VFix 1))
+  | _ => false
+  end.
+(* the same for mod and rem: integers, at least one bignum object *)
+Definition modrem_value_domain (args : list val) : bool :=
+  forallb wf args &&
+  match args with
+  | [n; d] => negb (as_num d =? 0) && match norm_kind n d with KBig => true | _ => false end
+  | _ => false
+  end.
